@@ -233,6 +233,23 @@ class NumpyProxy(types.ModuleType):
         self.lstsq_records.append(dict(a=na.copy(), b=_np.asarray(b, dtype=object).copy(), rank=rank))
         return x, residuals, rank, sv
 
+    def gradient(self, f, *varargs, **kw):
+        """numpy.gradient for a 1-D symbolic array with unit spacing (second-order centred, first-order edges)."""
+        if not has_sym(f):
+            return _np.gradient(f, *varargs, **kw)
+        f = _np.asarray(f, dtype=object)
+        if f.ndim != 1 or varargs or kw:
+            raise SymError("gradient stub: only 1-D, unit spacing, default edge order is modelled")
+        n = f.shape[0]
+        if n < 2:
+            raise ValueError("Shape of array too small to calculate a numerical gradient, at least (edge_order + 1) elements are required.")
+        out = _np.empty(n, dtype=object)
+        out[0] = f[1] - f[0]
+        out[-1] = f[-1] - f[-2]
+        for i in range(1, n - 1):
+            out[i] = (f[i + 1] - f[i - 1]) / 2
+        return out
+
     def polyfit(self, x, y, deg, *args, **kw):
         if self.polyfit_impl is not None and (has_sym(x) or has_sym(y)):
             return self.polyfit_impl(x, y, deg, *args, **kw)
